@@ -99,6 +99,13 @@ fn optimise_replica<S: State + 'static>(base: &S, index: u64, steps: u64, kt: f6
 
 fn lib_diff<S: State + 'static>(base: S, c: &Case, replicas: u64, steps: u64, kt: f64, max_step: f64, jitter: u64, st: &mut Stats) {
     st.eval();
+    // the first evaluation on this thread after the decoys, and the same state once more: one
+    // state, one score
+    let (first, again) = (base.score(), base.score());
+    if first.map(f64::to_bits) != again.map(f64::to_bits) {
+        st.violation(viol("result-depends-on-what-ran-before", c, json!({"what": "two consecutive evaluations of the same untouched state, the first one right after other states were evaluated on this thread", "first": first, "second": again})));
+        return;
+    }
     if base.score().map(|x| x.is_finite()) != Some(true) {
         st.count("lib_cases_skipped_initial_state_not_scored");
         return;
@@ -209,6 +216,18 @@ fn run_decoy(group: &str, shape: &ShapeSpec, lj: bool) {
             let _ = b.build().optimise_state(s).score();
         } else if let Some(Ok(s)) = decoy.mol().map(|s| PackedState::from_group(s, &wg)) {
             let _ = b.build().optimise_state(s).score();
+        }
+        // last of all (the very next evaluation on this thread is the reference's): a state that
+        // cannot be scored at all - the same shape in a cell without area; whatever that leaves
+        // behind must not reach the next evaluation
+        if !lj {
+            if let Some(Ok(mut s)) = shape.line().map(|s| PackedState::from_group(s, &wg)) {
+                s.cell = packing::Cell2::from_family(s.wallpaper.family, 0.);
+                let _ = s.score();
+            } else if let Some(Ok(mut s)) = shape.mol().map(|s| PackedState::from_group(s, &wg)) {
+                s.cell = packing::Cell2::from_family(s.wallpaper.family, 0.);
+                let _ = s.score();
+            }
         }
     }
 }
@@ -378,6 +397,10 @@ pub fn run(ctx: &Ctx) {
     });
     {
         let mut st = Stats::new();
+        for (i, (g, sides)) in [("p1", 4usize), ("p1", 3), ("p2", 5)].iter().enumerate() {
+            let c = Case::Lib { group: g.to_string(), shape: ShapeSpec::Polygon { sides: *sides }, lj: false, replicas: 4, steps: 200, kt: 0.1, max_step: 0.05, jitter: 2000 + i as u64 + ctx.seed, lj_eps: None };
+            check_lib(&c, &mut st);
+        }
         for (i, g) in ["p2mm", "p2mg", "p2gg"].iter().enumerate() {
             let c = Case::Lib { group: g.to_string(), shape: ShapeSpec::Circle, lj: true, replicas: 4, steps: 700, kt: 0., max_step: 0.05, jitter: 1000 + i as u64 + ctx.seed, lj_eps: if i == 1 { Some(2.) } else { None } };
             check_lib(&c, &mut st);
